@@ -136,6 +136,7 @@ func checkC03(c *core.Ctx) {
 	defer selfCases(c, false, "elementwise", "compare")
 	defer soakC03(c)
 	defer gridC03(c)
+	defer scalarArgC03(c)
 	sameOperandSequence(c, "sameoperand", [][]int{{3}, {2, 3}, {2, 1, 3}, {5, 2}}, c03Ops, false)
 	composeCases(c, "compose", composeShapes, consumersElementwise, false)
 	shapes := append(enum.ShapeSet(c.Thorough()), longShapes(c.Thorough())...)
